@@ -62,3 +62,34 @@ Proof.
     apply forallb_forall. intros x Hx. rewrite Forall_forall in Hb. destruct (Hb x Hx) as [H1 H2].
     rewrite H1, N.eqb_refl, H2. reflexivity.
 Qed.
+
+(** C04 at the phase level, for the ObjectSet controllers' flavour (native owner references), quiet third
+    parties and a phase whose entries name distinct objects: the model never reports a phase as cleaned up
+    while a listed, teardown-admissible object is still controlled by the owner. *)
+From PKO Require Import ObjectSet ObjectSetProofs.
+Theorem m04p_objectset_sound (c : pcase) :
+  pc_flavor c = FObjectSet -> is_nil (pc_between c) = true ->
+  NoDup (map (desired_key (pc_owner c)) (pc_objects c)) ->
+  m04p (set_obs c (model_run c)) = true.
+Proof.
+  intros Hfl Hq Hnd. unfold m04p. destruct (model_run c) as [[w e] r] eqn:E.
+  set (c' := set_obs c (w, e, r)).
+  change (pc_teardown c') with (pc_teardown c). change (pc_objects c') with (pc_objects c).
+  change (pc_res c') with r. change (pc_owner c') with (pc_owner c). change (pc_post c') with (w_store w).
+  change (pc_flavor c') with (pc_flavor c).
+  destruct (pc_teardown c) eqn:Ht; [|reflexivity]. cbn [negb orb].
+  unfold model_run in E. rewrite Ht in E. rewrite (quiet_between c Hq) in E.
+  destruct (teardown_phase (pc_cfg c) idw (pc_world c) (pc_owner c) (pc_objects c)) as [[w0 e0] r0] eqn:Et.
+  destruct r0 as [|d]; injection E as <- <- <-; [reflexivity|].
+  cbv beta iota. destruct d; [|reflexivity].
+  unfold teardown_phase in Et.
+  assert (Hcfg : pc_cfg c = {| c_flavor := FObjectSet; c_force := pc_force c |}) by (unfold pc_cfg; now rewrite Hfl).
+  rewrite Hcfg in Et.
+  destruct (td_objs_done (pc_force c) (pc_owner c) (pc_objects c) _ _ _ _ Et Hnd) as [_ Hall].
+  apply forallb_forall. intros p Hp. specialize (Hall p Hp). unfold td_obj_done in Hall.
+  assert (Hv : violates c' p = negb (is_nil (preflight_obj (pc_flavor c) (pc_owner c) false p))) by reflexivity.
+  rewrite Hv, Hfl. destruct Hall as [Hpf|Hl].
+  - destruct (preflight_obj FObjectSet (pc_owner c) false p); [contradiction|reflexivity].
+  - apply orb_true_iff. right. unfold key_of in Hl. cbn [flavor_strat].
+    destruct (lookup (desired_key (pc_owner c) p) (w_store w0)); [now rewrite Hl|reflexivity].
+Qed.
